@@ -126,6 +126,7 @@ class MemEngine(object):
             old = self.shadow[xy].read(addr, len(new), p)
         status, val = rigcall(w, (c.scp.TimeoutError,), fn, *args, **kw)
         if status == "exc":
+            c.settle()
             w.probe("op_timeout")
             w.ops[-1] += " -> TimeoutError"
             if c.clean():
